@@ -207,7 +207,7 @@ impl Ctx {
         move |a: E, b: E| {
             let n = calls.fetch_add(1, Ordering::Relaxed) + 1;
             if logred {
-            sched::log(&format!(
+            sched::log_capped(&format!(
                 "\"e\":\"red\",\"a\":{},\"t\":{},\"x\":{},\"y\":{},\"xk\":{},\"yk\":{}",
                 sched::actor(),
                 sched::tid(),
@@ -458,7 +458,7 @@ impl Iterator for SrcIter {
         let x = self.items.next();
         let p: i64 = if x.is_some() { self.pos as i64 } else { -1 };
         if self.log {
-        sched::log(&format!(
+        sched::log_capped(&format!(
             "\"e\":\"nx\",\"a\":{},\"t\":{},\"pos\":{}",
             sched::actor(),
             sched::tid(),
